@@ -44,7 +44,9 @@ def _sym(draw):
     return {"kind": "sym", "step": step, "opt": opt, "gamma": draw(gam), "eps": draw(st.sampled_from([0.1, 0.5, 1, 2, 0.3, 1.5])),
             "start": draw(st.sampled_from(["leaf", "leaf", "comb", "comb_prev"])), "composite": draw(st.booleans()),
             "w": [draw(st.sampled_from([1, 2, 0.5, 3])), draw(st.sampled_from([1, 2, 0.5, -1]))],
-            "ndir": draw(st.integers(0, 3)), "pre_eval": draw(st.booleans()), "named": draw(st.booleans())}
+            "ndir": draw(st.integers(0, 3)), "pre_eval": draw(st.booleans()), "named": draw(st.booleans()),
+            # Bregman steps: the mirror map may be a non-differentiable convex function (a new subgradient at each query)
+            "mirror_nonsmooth": draw(st.booleans())}
 
 
 @st.composite
@@ -222,7 +224,8 @@ def check_sym(case, ctx):
         pep = PEP()
         f1 = pep.declare_function(ConvexFunction)
         f2 = pep.declare_function(SmoothStronglyConvexFunction, mu=0.1, L=1.0)
-        h = pep.declare_function(SmoothStronglyConvexFunction, mu=0.5, L=2.0)
+        h = (pep.declare_function(ConvexFunction) if case.get("mirror_nonsmooth")
+             else pep.declare_function(SmoothStronglyConvexFunction, mu=0.5, L=2.0))
         ind = pep.declare_function(ConvexIndicatorFunction, D=1.0)
         if case.get("named"):
             f1.set_name("f1")
